@@ -5,6 +5,7 @@
 //!   vmain --worker <ID>            (internal)
 
 mod bind;
+mod corpus;
 mod pool;
 mod props;
 
@@ -70,6 +71,24 @@ fn main() {
                 std::process::exit(2);
             }
             props::drive(&prop, &tier)
+        }
+        Some("run") => {
+            // vmain run <file.bas> [stdin text]: run one text through the pipeline (triage helper)
+            bind::install_panic_hook();
+            let text = std::fs::read_to_string(args.get(2).map(|s| s.as_str()).unwrap_or("")).unwrap_or_default();
+            let mut opts = bind::RunOpts::default();
+            opts.check_types = true;
+            opts.stdin = args.get(3).map(|s| s.replace("\\n", "\n").into_bytes()).unwrap_or_default();
+            let out = bind::run_pipeline(&text, &opts);
+            println!("stdout: {:?}", out.stdout_str());
+            if !out.lpt1.is_empty() {
+                println!("lpt1: {:?}", out.lpt1_str());
+            }
+            println!("end: {:?}", out.end);
+            if let Some(m) = &out.mon {
+                println!("instructions: {} type_violation: {:?} max_depths: {:?}", m.instructions, m.type_violation, m.max_depths);
+            }
+            0
         }
         Some("replay") => {
             let prop = args.get(2).cloned().unwrap_or_default();
